@@ -66,6 +66,14 @@ var unguardedField = map[string]string{
 	"TeeBackend.backend":       "set once in NewTeeBackend, never written afterwards",
 }
 
+// Interface-typed fields that hold a value supplied by the client which is
+// assumed not to be an object of this package (trusted base): calls through
+// them are opaque instead of fanning out to every in-package implementer.
+var externalField = map[string]string{
+	"TTYFrontend.out": "the writer a TTYFrontend draws on (a real terminal); never the emulated terminal or one of its backends",
+	"TeeBackend.tee":  "the tee writer set by the client; never the emulated terminal or one of its backends",
+}
+
 // Method names that are potentially blocking reads when invoked on an
 // interface value or on a type from another package.
 var blockingRead = map[string]bool{
@@ -544,7 +552,20 @@ func (g *gen) methodCall(c *ast.CallExpr, sel *ast.SelectorExpr, s *types.Select
 		if blockingRead[name] {
 			g.block(types.TypeString(recv, func(p *types.Package) string { return p.Name() })+"."+name, out)
 		}
-		*out = append(*out, Ev{Kind: "CallIface", S: name, Impls: g.implementers(iface, name)})
+		// A write to the backend (the PTY or a pipe) blocks while the other side does not
+		// read; it is treated like a blocking read: not under the terminal lock.
+		if recvNamed == "Backend" && name == "Write" {
+			g.block("write "+types.TypeString(recv, func(p *types.Package) string { return p.Name() })+"."+name, out)
+		}
+		impls := g.implementers(iface, name)
+		if fsel, ok := ast.Unparen(sel.X).(*ast.SelectorExpr); ok {
+			if fs, ok := g.info.Selections[fsel]; ok && fs.Kind() == types.FieldVal {
+				if _, ext := externalField[g.localNamedName(fs.Recv())+"."+fs.Obj().Name()]; ext {
+					impls = nil
+				}
+			}
+		}
+		*out = append(*out, Ev{Kind: "CallIface", S: name, Impls: impls})
 		return
 	}
 
